@@ -72,7 +72,7 @@ def shape_builtin(item, ob):
     f = cl.get(name)
     if f is None: raise Missing(f'builtin closure {name!r} not found')
     ptys = [t for _, t in f.params[1:]]
-    encoded = 0; reasons = set(); panics = 0
+    encoded = 0; reasons = set(); panics = 0; timeouts = 0
     def on_alarm(*_): raise _TO()
     for combo in combos:
         made = [mk_arg(k, f'x{i}', ptys[i]) for i, k in enumerate(combo)]
@@ -84,7 +84,10 @@ def shape_builtin(item, ob):
             return E.run_fn(f, [Closure(f.params[0][1], [])] + [m[0] for m in fresh])
         old = signal.signal(signal.SIGALRM, on_alarm); signal.alarm(20)
         try: paths = E.explore(run, max_paths=400)
-        except (_TO, Fuel): reasons.add('path explosion / time limit'); signal.alarm(0); continue
+        except (_TO, Fuel):
+            reasons.add('path explosion / time limit'); signal.alarm(0); timeouts += 1
+            if timeouts >= 2: reasons.add('remaining kind tuples skipped after two time-outs'); break          # loops over a symbolic bound (is_prime, factorize, str_radix): every tuple would time out
+            continue
         except Missing as e: reasons.add(str(e)[:120]); continue
         except Exception as e: reasons.add('encoder limitation: ' + repr(e)[:100]); continue
         finally: signal.alarm(0); signal.signal(signal.SIGALRM, old)
@@ -148,6 +151,7 @@ def main(tier, seed, t0):
     E = eng(); cl = builtin_closures(E)
     rnd = random.Random(seed); items = [('site', 'set_index_slice')]
     for vk in ('byte', 'two', 'mb', 'num', 'none'): items.append(('string_assign', (False, 'Small', vk)))
+    items.append(('string_assign', (False, 'Small', 'byte', 'multibyte')))
     names = sorted(n for n in cl if n not in SKIP_NAMES)
     total = len(names); skipped_sig = []
     for name in names:
